@@ -28,6 +28,7 @@ pub mod props {
     pub mod c15;
     pub mod c16;
     pub mod c17;
+    pub mod c17drv;
     pub mod c18;
     pub mod c19;
     pub mod holder;
